@@ -180,6 +180,89 @@ def pin_to_bytes_backfill(ctx, rep, rule, fn, se, be, pin, idx, arr):
     rep.check(good, rule, fn, "reverse", "out[i..] is returned: most significant digit first, exactly the digits written", "the returned slice is not out[start..] of the back-filled array", body.loc())
 
 
+# ------------------------------------------------------------------------------------ shared draw loop
+
+def countdown_pick(ctx, se):
+    """The draw-without-replacement loop written once over slices (as a helper shared by the PIN
+    grid and the matrix coordinates would have it), seen in its caller:
+        remaining = table.len();
+        for slot in picks.iter_mut() {
+            idx = seed % remaining;  seed /= remaining;
+            *slot = table[idx];  table.copy_within(idx + 1..remaining, idx);  remaining -= 1;
+        }
+    Returns the pieces (table / seed / picks start values, the loop) when the loop is exactly
+    that - slot k then gets table_k[seed_k % (len - k)] - else None."""
+    body = se.body
+    loops = [lp for lp in util.for_loops(ctx, se) if "slice::IterMut" in (lp["resolved"] or "") and lp["init_call"] is not None]
+    others = [lp for lp in util.for_loops(ctx, se) if lp not in loops]
+    if len(loops) != 1:
+        return None
+    lp = loops[0]
+    head = lp["next_bb"]
+    ic = lp["init_call"]
+    R_old = se.call_old.get((ic[3][:2], 0))
+    ii = se.term_info.get(ic[3][1], {})
+    la = ii.get("locargs", (("?",),))[0]
+    R_loc = la[1] if la[0] == "ref" else None
+    if R_old is None or R_loc is None:
+        return None
+    st = loop_state(se, head)
+    elem = lp["elem"]
+    rem = seed = table = None
+    for key, (init, step) in st.items():
+        ph = phi_of(se, head, key)
+        n = N(step, {ph: "x"})
+        if n == ("sub", S("x"), I(1)):
+            rem = (key, ph, init)
+    if rem is None:
+        return None
+    for key, (init, step) in st.items():
+        ph = phi_of(se, head, key)
+        if key == rem[0]:
+            continue
+        n = N(step, {ph: "seed", rem[1]: "n"})
+        if n == ("Div", S("seed"), S("n")):
+            seed = (key, ph, init)
+    if seed is None:
+        return None
+    env = {seed[1]: "seed", rem[1]: "n"}
+    pick = ("rem", S("seed"), S("n"))
+    for key, (init, step) in st.items():
+        ph = phi_of(se, head, key)
+        ts = strip(step)
+        if ts[0] == "after" and util.is_call(ts[1]) and ts[1][1].endswith("::copy_within") and ts[2] == 0 and ts[3] == ph:
+            c = ts[1]
+            r_ = strip(c[2][1])
+            if r_[0] == "agg" and r_[2] == "std::ops::Range":
+                env_t = dict(env)
+                env_t[ph] = "T"
+                lo, hi, dst = N(r_[4][0], env_t), N(r_[4][1], env_t), N(c[2][2], env_t)
+                if lo == comm(("add", pick, I(1))) and hi == S("n") and dst == pick:
+                    table = (key, ph, init)
+    if table is None:
+        return None
+    env[table[1]] = "T"
+    stores = [(k, v) for k, (loc, v) in se.assigns.items() if loc == ("deref", elem) or (loc[0] == "deref" and strip(loc[1]) == strip(elem))]
+    if len(stores) != 1 or N(stores[0][1], env) != ("idx", S("T"), pick):
+        return None
+    # remaining starts as the length of the table as the loop finds it
+    r0 = strip(rem[2])
+    t0 = strip(table[2])
+    len_ok = util.is_call(r0) and r0[1].endswith("<impl [T]>::len") or r0[0] == "int"
+    if util.is_call(r0):
+        a = strip(r0[2][0])
+        while util.is_call(a) and (a[1] in util.IDENT_CALLS or "deref" in a[1].lower()) and len(a[2]) == 1:
+            a = strip(a[2][0])
+        len_ok = a == t0
+    # nothing else leaves the loop or runs in it: the only calls are next / copy_within / index
+    loop = set()
+    for e in cfg.back_edges(body):
+        if e[1] == head:
+            loop |= cfg.natural_loop(body, e)
+    exits = {s_ for b in loop for s_ in body.succs(b) if s_ not in loop and body.blocks[s_]["term"]["k"] != "unreachable"}
+    return {"lp": lp, "head": head, "R_old": strip(R_old), "R_loc": R_loc, "seed0": strip(seed[2]), "T0": t0, "T_key": table[0], "rem0": r0, "len_ok": len_ok, "single_exit": len(exits) == 1, "others": others, "site": ic[3]}
+
+
 # ------------------------------------------------------------------------------------ remap_pin_grid
 
 def remap_pin_grid_rule(ctx, rep, rule="layout"):
@@ -192,6 +275,26 @@ def remap_pin_grid_rule(ctx, rep, rule="layout"):
     fi = for_info(ctx, se)
     if len(fi) == 0 and remap_from_fn(ctx, rep, rule, fn, se):
         return
+    if len(fi) == 1 and not any(util.is_call(src, suffix="::enumerate") or util.is_call(src, suffix="::zip") for (_, src, _) in fi.values()):
+        cp = countdown_pick(ctx, se)
+        if cp is not None:
+            # the shared draw loop over (digits [0..9], the 10 slots of the result): radix 10 - k
+            t0 = cp["T0"]
+            ten = t0[0] == "agg" and t0[1] == "array" and [x[1] for x in t0[4]] == list(range(10))
+            rl = cp["R_loc"]
+            while rl[0] == "deref" and rl[1][0] in ("ref", "refv"):
+                rl = rl[1][1]
+            rty = body.local_ty(rl[1]) if rl[0] == "local" else None
+            slots = rty is not None and rty.k == "array" and rty.len == 10
+            rem_ok = cp["len_ok"] or cp["rem0"][:2] == ("int", 10)
+            rep.check(ten and slots and rem_ok and cp["single_exit"], rule, fn, "radices", "the shared draw loop over the digits [0..9] and the 10 slots of the result: radices 10, 9, ..., 1", "the draw loop is not run over the digits 0..9 and the ten slots of the result (digits %s, slots %s, countdown from the table length %s)" % (ten, slots, rem_ok), body.loc())
+            s0 = cp["seed0"]
+            while (util.is_call(s0) and (s0[1] in util.IDENT_CALLS or "convert::From<u32> for u64" in s0[1] or s0[1].endswith("Into<U>>::into")) and len(s0[2]) == 1) or s0[0] == "cast":
+                s0 = strip(s0[2][0]) if util.is_call(s0) else strip(s0[2])
+            rep.check(s0 == ("param", 1), rule, fn, "step", "r = seed % i; result[k] = digits[r]; seed /= i; digits[r+1..i] moved one place down (seed = the parameter, widened)", "the draw loop does not start from the seed parameter: %s" % show(cp["seed0"], maxdepth=3), body.loc())
+            r = strip(se.ret)
+            rep.check(r[0] == "after" and util.is_call(r[1]) and r[1][3] == cp["site"] and r[2] == 0, rule, fn, "result", "the array whose slots the loop filled is returned", "the returned array is not the generated layout", body.loc())
+            return
     if len(fi) not in (1, 2):
         rep.violation(rule, fn, "shape", "expected the radix loop (and optionally an inner gap-closing loop), found %d loops" % len(fi), body.loc())
         return
@@ -389,6 +492,42 @@ def remap_from_fn(ctx, rep, rule, fn, se):
 
 # ------------------------------------------------------------------------------------ generate_coordinates
 
+def generate_coordinates_shared(ctx, rep, rule, fn, se, cp, init_l, size):
+    """the draw written as the shared loop over (identity table, the challenge_count slots of
+    the coordinate list): slot r gets table_r[seed_r % (size - r)]"""
+    body = se.body
+    ist = loop_state(se, init_l[0])
+    tab = [(k, v) for k, v in ist.items() if util.is_call(strip(v[0]), "std::vec::from_elem")]
+    good = False
+    t_exit = None
+    if len(tab) == 1:
+        key, (init, step) = tab[0]
+        env = {phi_of(se, init_l[0], key): "T", init_l[1]: "n"}
+        i0 = strip(init)
+        good = i0[2][0][:2] == ("int", 0) and N(i0[2][1], {}) == size and N(step, env) == ("upd", S("T"), S("n"), S("n"))
+        t_exit = phi_of(se, init_l[0], key)
+    rep.check(good, rule, fn, "identity-table", "table = [0, 1, ..., size-1]", "the index table is not initialised to the identity over all cells", body.loc())
+    if not good:
+        return
+    t0 = cp["T0"]
+    while t0[0] == "after" and util.is_call(t0[1]) and (t0[1][1].endswith("DerefMut>::deref_mut") or t0[1][1].endswith("::index_mut")):
+        t0 = strip(t0[3])
+    r0 = cp["R_old"]
+    while r0[0] == "after" and util.is_call(r0[1]) and r0[1][1].endswith("DerefMut>::deref_mut"):
+        r0 = strip(r0[3])
+    picks_ok = util.is_call(r0, "std::vec::from_elem") and strip(r0[2][0])[:2] == ("int", 0) and N(r0[2][1], {}) == ("param", 3)
+    table_ok = t0 == strip(t_exit) and cp["len_ok"]
+    seed_ok = cp["seed0"] == ("param", 4)
+    bad = {k: v for k, v in (("picks", picks_ok), ("table", table_ok), ("seed", seed_ok)) if not v}
+    rep.check(not bad, rule, fn, "draw-without-replacement", "the shared draw loop: per slot r of the challenge_count coordinates, pick = seed % (size - r); coordinates[r] = table[pick]; table[pick+1..size-r] moved one place down; seed /= (size - r)", "coordinate selection differs from the draw-without-replacement scheme: %s" % sorted(bad), body.loc())
+    rep.check(cp["single_exit"], rule, fn, "every-round", "every slot is filled: the draw loop has no other exit", "the draw loop can be left before all coordinates are drawn", body.loc())
+    r = strip(se.ret)
+    while r[0] == "after" and util.is_call(r[1]) and (r[1][1].endswith("DerefMut>::deref_mut") or r[1][1].endswith("for &'a mut [T]>::into_iter") or r[1][1].endswith("<impl [T]>::iter_mut")) and r[1][3] != cp["site"]:
+        r = strip(r[3])
+    root_ok = any(x == r0 for x in walk(r)) and any(util.is_call(x) and x[3] == cp["site"] for x in walk(r))
+    rep.check(root_ok, rule, fn, "result", "the coordinate list the loop filled is returned", "the returned list is not the one the draw loop filled", body.loc())
+
+
 def generate_coordinates_rule(ctx, rep, rule="distinct"):
     fn = "matrix_card::generate_coordinates"
     se = ctx.wrap.run(fn)
@@ -410,6 +549,9 @@ def generate_coordinates_rule(ctx, rep, rule="distinct"):
         else:
             gap = (head, elem, src)
     if not rounds:
+        cp = countdown_pick(ctx, se)
+        if cp is not None and init_l is not None:
+            return generate_coordinates_shared(ctx, rep, rule, fn, se, cp, init_l, size)
         rep.violation(rule, fn, "shape", "no loop over the rounds `0..challenge_count`", body.loc())
         return
     # ---- identity table: zero-filled + table[n] = n loop, or (0..size).collect()
